@@ -79,6 +79,16 @@ def gen(ctx, deep):
                 jobs.append((cfg, [("setstore", {"p": P, "g": bad_g, "g2": G2}), ("load", None)] + after))
         for k in (0, 1, 2, 3):
             jobs.append((cfg, [("setstore", {"p": P, "g": G, "g2": G2}), ("load", k), ("add", "g", newg[0])]))
+        # a reload that leaves a role definition WITHOUT any rule while links existed before: the store never held them
+        # (auto-save off while they were granted), or the store has been emptied
+        for init in inits:
+            cfg0 = ec.Config(shape, adapter=True, watcher=None, initial=init)
+            jobs.append((cfg0, [("setstore", {"p": P, "g": [], "g2": []}), ("load", None), ("add", "g", G[0])]))
+            jobs.append((cfg0, [("setstore", {"p": P, "g": G, "g2": []}), ("load", None)]))
+            if not init["g"]:
+                jobs.append((cfg0, [("autosave", False), ("add", "g", G[0]), ("add", "g", G[1]), ("load", None), ("autosave", True), ("add", "g", G[2])]))
+                if shape == "res":
+                    jobs.append((cfg0, [("autosave", False), ("add", "g2", G2[0]), ("load", None)]))
         # the other call form (rule as one list argument) and the async twins of the single calls
         singles = [o for o in ops if o[0] in ("add", "remove")]
         for is_async, listform in ((False, True), (True, True), (True, False)):
